@@ -210,8 +210,9 @@ func verifyCascadingFields(header Header) error {
 	}
 	cachedir, err := ioutil.TempDir("", "")
 	if err != nil {
-		fmt.Println(err)
-		return errEthashStopped
+		// no usable temporary directory on this host: keep the verification cache in memory only, the verdict
+		// on a header must not depend on the file system
+		cachedir = ""
 	}
 	defer os.RemoveAll(cachedir)
 	config := Config{
